@@ -1,15 +1,17 @@
 #!/usr/bin/env python3
-"""tools/save_wave3.py [ids...]  -- evaluates the staged wave-3 mutants (notes/mut3/<id>/) against the
+"""tools/save_wave.py <wave> [ids...]  -- evaluates the staged wave-3 mutants (notes/mut3/<id>/) against the
 current checks (tools/trymut.sh, quick then thorough, then the alternate checks given in ALT) and
 stores them as seeded/<PROP>-w3<k>-<slug>/ with meta.json.  Mutants must have been confirmed before
 (tools/confirm_mut.sh; done by /tmp/evalmut3.sh during the session)."""
 import json, os, re, shutil, subprocess, sys
 ROOT = os.path.dirname(os.path.dirname(os.path.abspath(__file__)))
 ns = {}
-exec(open(os.path.join(ROOT, 'notes/mut3/index.py')).read(), ns)
+WAVE = sys.argv[1]
+exec(open(os.path.join(ROOT, 'notes/mut%s/index.py' % WAVE)).read(), ns)
 M = ns['M']
-ALT = {"C13-bug3": ["C11"], "C14-bug2": ["C12", "C01"], "C08-bug1": ["C06", "C09"], "C09-bug1": ["C06", "C08"]}
-ids = sys.argv[1:] or sorted(M)
+ALT = {"3": {"C13-bug3": ["C11"], "C14-bug2": ["C12", "C01"], "C08-bug1": ["C06", "C09"], "C09-bug1": ["C06", "C08"]},
+       "4": {"C04-bug3": ["C01"], "C01-bug1": ["C04"], "C17-bug2": ["C07", "C06"], "C19-bug2": ["C12"], "C18-bug1": ["C04", "C01"]}}.get(sys.argv[1], {})
+ids = sys.argv[2:] or sorted(M)
 
 def run(patch, tier, chk):
     p = subprocess.run([os.path.join(ROOT, 'tools/trymut.sh'), patch, tier, chk], capture_output=True, text=True)
@@ -22,7 +24,7 @@ def run(patch, tier, chk):
 for mid in ids:
     slug, mech, needs = M[mid]
     prop, bug = mid.split('-')
-    src = os.path.join(ROOT, 'notes/mut3', mid)
+    src = os.path.join(ROOT, 'notes/mut' + WAVE, mid)
     patch = os.path.join(src, 'patch.diff')
     demo = open(os.path.join(src, 'DEMO')).read().splitlines()
     pkgdir = demo[0].strip().lstrip('./').rstrip('/')
@@ -35,7 +37,7 @@ for mid in ids:
             by = "%s: %s" % (chk, ", ".join(short[:6])) + (" (+%d more)" % (len(short) - 6) if len(short) > 6 else "")
             caught, tier_needed = True, tier
             break
-    sid = "%s-w3%s-%s" % (prop, bug[-1], slug)
+    sid = "%s-w%s%s-%s" % (prop, WAVE, bug[-1], slug)
     d = os.path.join(ROOT, 'seeded', sid)
     os.makedirs(d, exist_ok=True)
     shutil.copy(patch, os.path.join(d, 'patch.diff'))
@@ -49,6 +51,6 @@ for mid in ids:
                           "demonstration passes on the clean tree and fails with the patch (tools/confirm_mut.sh)"],
             "checked_with": "tools/trymut.sh seeded/%s/patch.diff %s %s" % (sid, tier_needed, by.split(':')[0] if by else prop),
             "caught": caught, "caught_by": by if caught else "MISSED", "tier_needed": tier_needed,
-            "origin": "independent sub-agent (round 3) given only the property text, the one-line mechanisms of earlier seeded changes and a scratch worktree"}
+            "origin": "independent sub-agent (round " + WAVE + ") given only the property text, the one-line mechanisms of earlier seeded changes and a scratch worktree"}
     json.dump(meta, open(os.path.join(d, 'meta.json'), 'w'), indent=1)
     print(sid, '->', meta['caught_by'][:150], '[%s]' % tier_needed, flush=True)
